@@ -3,7 +3,9 @@
 from __future__ import annotations
 
 import ast
+import re
 
+from ..alpha import Loc, facts
 from ..cfg import CFG
 from ..const import UNKNOWN, Folder
 from ..flow import Slicer, flat_guards, parent_map
@@ -40,30 +42,15 @@ def check(model: Model, run: Run) -> None:
     if raises:
         r = raises[0]
         g = flat_guards(f.node, r)
-        sl = Slicer(model, f)
-        good = False
-        for t, pol in g:
-            if isinstance(t, ast.Compare) and len(t.ops) == 1 and pol:
-                l, rr = t.left, t.comparators[0]
-                op = t.ops[0]
-                # elapsed > holdtime  or  holdtime < elapsed
-                if isinstance(op, ast.Gt) and dotted(rr) == 'self.holdtime':
-                    lhs = l
-                elif isinstance(op, ast.Lt) and dotted(l) == 'self.holdtime':
-                    lhs = rr
-                else:
-                    continue
-                # lhs must be now - self.last_read
-                exprs = [lhs] + ([v for v, _ in sl.defs.get(lhs.id, [])] if isinstance(lhs, ast.Name) else [])
-                for e in exprs:
-                    if isinstance(e, ast.BinOp) and isinstance(e.op, ast.Sub) and dotted(e.right) == 'self.last_read':
-                        good = True
+        fl = Loc(model, f)
+        fs = facts(fl, r)
+        good = any(re.fullmatch(r'.+ - self\.last_read > self\.holdtime', x) or re.fullmatch(r'self\.holdtime < .+ - self\.last_read', x) for x in fs)
         run.check(good, f.qualname, 'raise guarded by (now - self.last_read) > self.holdtime', f.loc(r), 'the hold timer must fire only after strictly more than holdtime seconds of silence; guards: %s' % [norm(t) for t, _ in g])
         codes = isinstance(r.exc, ast.Call) and [dotted(a) for a in r.exc.args[:2]] == ['self.code', 'self.subcode']
         run.check(bool(codes), f.qualname, 'raises Notify(self.code, self.subcode)', f.loc(r), 'the expiry must carry the codes given at construction (4/0)')
     # last_read refresh
     writes = [n for n in walk_no_nested(f.node) if isinstance(n, ast.Assign) and dotted(n.targets[0]) == 'self.last_read']
-    okw = len(writes) == 1 and any('SCHEDULING' in norm(t) and not pol for t, pol in flat_guards(f.node, writes[0]))
+    okw = len(writes) == 1 and any(re.fullmatch(r'not \w+\.SCHEDULING', x) for x in facts(Loc(model, f), writes[0]))
     run.check(okw, f.qualname, 'last_read refreshed only under `not message.SCHEDULING`', f.loc(writes[0]) if writes else f.loc(), 'an internal NOP must not count as traffic from the peer')
     # constructed with holdtime negotiated
     est = model.func(PEER + '._establish')
@@ -89,17 +76,24 @@ def check(model: Model, run: Run) -> None:
         first = nk.node.body[1]
     okz = isinstance(first, ast.If) and norm(first.test) == 'not self.keepalive' and isinstance(first.body[-1], ast.Return) and folder.fold(first.body[-1].value, nk.module, nk.cls) is False
     run.check(okz, nk.qualname, 'keepalive == 0 -> False first', nk.loc(first) if first is not None else nk.loc(), 'with hold time 0 no periodic KEEPALIVE is sent')
-    sl = Slicer(model, nk)
+    nl = Loc(model, nk)
+    due = re.compile(r'self\.last_sent \+ self\.keepalive - (.+) <= 0')
     fire = None
-    for n in walk_no_nested(nk.node):
-        if isinstance(n, ast.If) and isinstance(n.test, ast.Compare) and isinstance(n.test.ops[0], ast.LtE) and folder.fold(n.test.comparators[0], nk.module, nk.cls) == 0:
-            fire = n
     okf = False
-    if fire is not None and isinstance(fire.test.left, ast.Name):
-        for v, _ in sl.defs.get(fire.test.left.id, []):
-            if norm(v) == 'self.last_sent + self.keepalive - now':
-                okf = True
-        okf = okf and any(isinstance(s, ast.Return) and folder.fold(s.value, nk.module, nk.cls) is True for s in fire.body) and any(isinstance(s, ast.Assign) and dotted(s.targets[0]) == 'self.last_sent' and norm(s.value) == 'now' for s in fire.body)
+    for rt in walk_no_nested(nk.node):
+        if isinstance(rt, ast.Return) and folder.fold(rt.value, nk.module, nk.cls) is True:
+            fire = rt
+            m = [due.fullmatch(x) for x in facts(nl, rt)]
+            m = [x for x in m if x]
+            if len(m) != 1:
+                continue
+            now_txt = m[0].group(1)
+            # the send time is recorded under the same condition
+            rec = [a for a in walk_no_nested(nk.node) if isinstance(a, ast.Assign) and dotted(a.targets[0]) == 'self.last_sent' and nl.expand(a.value) == now_txt and any(due.fullmatch(x) for x in facts(nl, a))]
+            okf = len(rec) == 1
+    # ... and on no other path does it answer True
+    trues = [rt for rt in walk_no_nested(nk.node) if isinstance(rt, ast.Return) and folder.fold(rt.value, nk.module, nk.cls) is not False]
+    okf = okf and len(trues) == 1
     run.check(okf, nk.qualname, 'fires when last_sent + keepalive - now <= 0 and records now', nk.loc(fire) if fire is not None else nk.loc(), 'a KEEPALIVE is due once a keepalive interval has passed since the last one')
     stc = model.func(ST + '.__init__')
     okk = any(isinstance(n, ast.Assign) and dotted(n.targets[0]) == 'self.keepalive' and norm(n.value) == 'holdtime.keepalive()' for n in walk_no_nested(stc.node))
@@ -150,7 +144,10 @@ def check(model: Model, run: Run) -> None:
     )
     if idx_ck is not None:
         c = model.calls_to(mainf.module, top[idx_ck], 'ReceiveTimer.check_ka')[0]
-        run.check(bool(c.args) and isinstance(c.args[0], ast.Name) and c.args[0].id == 'message', mainf.qualname, 'check_ka receives the message just read', mainf.loc(c), 'the timer must see the received message')
+        ml = Loc(model, mainf)
+        got = ml.values(c.args[0].id) if c.args and isinstance(c.args[0], ast.Name) else []
+        from_read = any(isinstance(v, ast.Call) and isinstance(v.func, ast.Attribute) and v.func.attr == 'result' for v in got) or any(isinstance(v, ast.Await) and model.call_matches(mainf.module, v.value, 'Protocol.read_message') for v in got if isinstance(v, ast.Await) and isinstance(v.value, ast.Call))
+        run.check(bool(c.args) and from_read, mainf.qualname, 'check_ka receives the message just read', mainf.loc(c), 'the timer must see the received message')
 
     # the message handed to the hold timer comes from a read that is polled on EVERY iteration
     cfg = CFG(mainf.node)
@@ -199,12 +196,14 @@ def check(model: Model, run: Run) -> None:
     run.check(okb and not whiles, sru.qualname, 'for _ in range(routes_per_iteration): await new_routes.__anext__()', sru.loc(fors[0]) if fors else sru.loc(), 'the UPDATE sending loop must be bounded per reactor iteration so that timers are served')
     # the bound in _main folds to small constants
     vals = []
-    for n in walk_no_nested(mainf.node):
-        if isinstance(n, ast.Assign) and isinstance(n.targets[0], ast.Name) and n.targets[0].id == 'routes_per_iteration':
-            if isinstance(n.value, ast.IfExp):
-                vals = [folder.fold(n.value.body, mainf.module, mainf.cls), folder.fold(n.value.orelse, mainf.module, mainf.cls)]
+    bl = Loc(model, mainf)
+    for c in model.calls_to(mainf.module, mainf.node, 'Peer._send_route_updates'):
+        if len(c.args) >= 3:
+            v = bl.resolve(c.args[2])
+            if isinstance(v, ast.IfExp):
+                vals = [folder.fold(v.body, mainf.module, mainf.cls), folder.fold(v.orelse, mainf.module, mainf.cls)]
             else:
-                vals = [folder.fold(n.value, mainf.module, mainf.cls)]
+                vals = [folder.fold(v, mainf.module, mainf.cls)]
     run.check(bool(vals) and all(isinstance(v, int) and 1 <= v <= 1000 for v in vals), mainf.qualname, 'routes_per_iteration in %s' % vals, mainf.loc(), 'the per-iteration batch must be a small constant')
 
     # ------------------------------------------------------------------ R5 open wait
